@@ -118,3 +118,17 @@ func init() {
 	AddControl(Control{ID: "c18-cachekey-mismatch", Prop: "C18", Rule: "C18.cachekey", File: "pkg/interp/interp.go",
 		Old: "i.includeCache[filename] = q", New: "i.includeCache[filenamePart] = q", ExpectKey: "pkg/interp.Interp.includeCache|(*pkg/interp.Interp).Eval$2"})
 }
+
+func init() {
+	AddControl(Control{ID: "c13-alloc-indent-unclamped", Prop: "C13", Rule: "C13.alloc", File: "format/toml/toml.go",
+		Old: "min(max(0, opts.Indent), maxIndent)", New: "max(0, opts.Indent)", ExpectKey: "format/toml.toTOML|repeat|1"})
+	AddControl(Control{ID: "c13-alloc-read-len", Prop: "C13", Rule: "C13.alloc", File: "pkg/interp/interp.go",
+		Old: "	buf := &bytes.Buffer{}\n	_, err = io.CopyN(buf, r, int64(l))\n	s := buf.String()", New: "	rbuf := make([]byte, l)\n	n, err := io.ReadFull(r, rbuf)\n	s := string(rbuf[0:n])", ExpectKey: "(*pkg/interp.Interp)._stdioRead|make|1"})
+}
+
+func init() {
+	AddControl(Control{ID: "c13-nilret-unknown-encoding", Prop: "C13", Rule: "C13.nilret", File: "format/text/encoding.go",
+		Old: "		default:\n			return base64.StdEncoding", New: "		case \"\", \"std\":\n			return base64.StdEncoding\n		default:\n			return nil", ExpectKey: ""})
+	AddControl(Control{ID: "c13-errval-typed-arg", Prop: "C13", Rule: "C13.errval", File: "internal/gojqx/makefn_gen.go",
+		Old: "V: a[1]}\n			}\n\n			return fn(env, cv, a0, a1)", New: "V: a1}\n			}\n\n			return fn(env, cv, a0, a1)", ExpectKey: ""})
+}
